@@ -85,7 +85,9 @@ Proof.
     + split; [exact HsR|reflexivity].
   - (* squeeze *)
     pose proof (squeeze_sparse_correct v0 (fun _ => false) S Hsub) as HS. fold s in HS.
-    unfold squeeze_sp in *. fold s in HS. unfold squeeze_d, expand. rewrite !dshape_tabulate. fold s.
+    unfold squeeze_sp in *. fold s in HS.
+    rewrite (squeeze_d_pos_eq v0 (expand S)) by (unfold expand; rewrite dshape_tabulate; exact Hpos).
+    unfold squeeze_d_pos, expand. rewrite !dshape_tabulate. fold s.
     destruct (forallb (Nat.ltb 1) s) eqn:Hall.
     + split; [reflexivity|]. split; [split; assumption|split; reflexivity].
     + destruct (sqz s s) as [|d s2] eqn:Hq.
